@@ -97,6 +97,7 @@ type Doc struct {
 	BRWidth   int // width reserved for the array text
 	Hex       string // the hex digits between '<' and '>' (upper case as written)
 	SubFilter string
+	Digest    [32]byte // SHA-256 the CMS protects (of Lenient(bytes at signing time, ByteRange))
 }
 
 type Options struct {
@@ -199,6 +200,7 @@ func Build(s *Signer, o Options) (*Doc, error) {
 		return nil, fmt.Errorf("ByteRange text too wide: %s", txt)
 	}
 	copy(b[brStart:], txt)
+	dg := sha256.Sum256(Lenient(b, r))
 	cms, err := s.CMS(Lenient(b, r))
 	if err != nil {
 		return nil, err
@@ -212,7 +214,7 @@ func Build(s *Signer, o Options) (*Doc, error) {
 	}
 	copy(b[gapStart+1:], hx)
 	return &Doc{Bytes: b, ByteRange: r, GapStart: gapStart, GapEnd: gapEnd, BRStart: brStart, BRWidth: brWidth,
-		Hex: hx, SubFilter: o.SubFilter}, nil
+		Hex: hx, SubFilter: o.SubFilter, Digest: dg}, nil
 }
 
 // Increment appends a syntactically valid incremental update (one new object, an xref
